@@ -343,12 +343,16 @@ func C10(c *ev.Ctx) {
 	nShort := c.Pick(120, 1500)
 	nLong := c.Pick(2, 12)
 	imgDir := mustMkdir(filepath.Join(c.Scratch, "img10"))
+	hung := false
 	build := func(file bool) ([]map[string]any, map[int]string, int, int) {
 		var evs []map[string]any
 		seg := map[int]string{}
 		overl := 0
 		count := 0
 		add := func(k, m, n, hot int) {
+			if hung {
+				return
+			}
 			var d disk.Disk
 			name := "mem"
 			if file {
@@ -364,7 +368,22 @@ func C10(c *ev.Ctx) {
 			} else {
 				d = disk.NewMemDisk(uint64(n))
 			}
-			h := stressDisk(d, n, k, m, hot, file, rr, &nextVal)
+			var h []map[string]any
+			finished := make(chan bool, 1)
+			go func() { h = stressDisk(d, n, k, m, hot, file, rr, &nextVal); finished <- true }()
+			select {
+			case <-finished:
+			case <-time.After(3 * time.Minute):
+				buf := make([]byte, 1<<20)
+				buf = buf[:runtime.Stack(buf, true)]
+				hung = true
+				if hangInside(string(buf), "machine/disk") {
+					c.Violation("hang-"+name, fmt.Sprintf("the concurrent driver on %s (k=%d clients, n=%d blocks) never finished: a goroutine is blocked for good inside the library (deadlock)\n%s", name, k, n, tlc.Tail(string(buf), 60)), map[string]string{"goroutines.txt": string(buf)})
+				} else {
+					c.Inconclusive("the concurrent driver did not finish in 3 minutes")
+				}
+				return
+			}
 			d.Close()
 			seg[len(evs)] = fmt.Sprintf("%s k=%d m=%d n=%d", name, k, m, n)
 			evs = append(evs, map[string]any{"ev": "reset", "n": n})
@@ -399,7 +418,13 @@ func C10(c *ev.Ctx) {
 		return evs, seg, overl, count
 	}
 	memEvs, memSeg, memOv, memN := build(false)
+	if hung {
+		return
+	}
 	fileEvs, fileSeg, fileOv, fileN := build(true)
+	if hung {
+		return
+	}
 	{
 		bevs, bseg, bn := fileBursts(c, imgDir, &nextVal)
 		for at, d := range bseg {
